@@ -723,6 +723,65 @@ def flatten_state_object(index, cls, _no_config=False):
     return view
 
 
+def _flatten_attribute_objects(index, cls):
+    """An attribute of the weighting that holds a small helper object of the same module (`self.calls = _CallCounter()` in __init__ only), whose
+    methods the weighting calls (`self.calls.advance(k)`, `self.calls.restart()`): the object's fields are read as fields of the weighting
+    and its constructor, methods and one-line properties are expanded in place. Returns a view of the class, or the class itself."""
+    import copy
+    import dataclasses
+
+    from ..normalize import inline_local_objects
+
+    ini = cls.methods.get("__init__")
+    if ini is None or not dataclasses.is_dataclass(ini):
+        return cls
+    holders = {}
+    for a in ast.walk(ini.node):
+        if isinstance(a, ast.Assign) and len(a.targets) == 1 and self_attr(a.targets[0]) and isinstance(a.value, ast.Call) and isinstance(a.value.func, ast.Name) \
+                and a.value.func.id in cls.module.classes:
+            D = cls.module.classes[a.value.func.id]
+            calls_methods = any(isinstance(x, ast.Call) and isinstance(x.func, ast.Attribute) and self_attr(x.func.value) == self_attr(a.targets[0]) and x.func.attr in D.methods
+                                for m in cls.methods.values() for x in ast.walk(m.node))
+            restored = any(isinstance(s_, ast.Assign) and len(s_.targets) == 1 and self_attr(s_.targets[0]) == self_attr(a.targets[0]) for m, f in cls.methods.items() if m != "__init__" for s_ in ast.walk(f.node))
+            if calls_methods and not restored and "__init__" in D.methods and not any("dataclass" in ast.unparse(d) for d in D.node.decorator_list):
+                holders[self_attr(a.targets[0])] = D
+    if not holders:
+        return cls
+    methods = dict(cls.methods)
+    for S, D in holders.items():
+        var = f"{S}__obj"
+        fields = {self_attr(t) for s_ in ast.walk(D.methods["__init__"].node) if isinstance(s_, (ast.Assign, ast.AugAssign, ast.AnnAssign))
+                  for t in (s_.targets if isinstance(s_, ast.Assign) else [s_.target]) if self_attr(t)}
+        if fields & set(stores(ini.node)):
+            return cls  # a field of the helper has the name of a field of the weighting: not flattened
+
+        class Pre(ast.NodeTransformer):
+            def visit_Attribute(self, n):
+                self.generic_visit(n)
+                if self_attr(n) == S:
+                    return ast.copy_location(ast.Name(id=var, ctx=n.ctx), n)
+                return n
+
+        class Post(ast.NodeTransformer):
+            def visit_Name(self, n):
+                if n.id.startswith(var + "__") and n.id[len(var) + 2:] in fields:
+                    return ast.copy_location(ast.Attribute(value=ast.Name(id="self", ctx=ast.Load()), attr=n.id[len(var) + 2:], ctx=n.ctx), n)
+                return n
+
+        for mname, f in list(methods.items()):
+            if not dataclasses.is_dataclass(f):
+                continue
+            node = Pre().visit(copy.deepcopy(f.node))
+            if not any(isinstance(x, ast.Name) and x.id == var for x in ast.walk(node)):
+                continue
+            node = inline_local_objects(f, index, node, known={var: D})
+            node = ast.fix_missing_locations(Post().visit(node))
+            if any(isinstance(x, ast.Name) and x.id == var for x in ast.walk(node)):
+                return cls  # the object itself is still used somewhere (handed on, compared): not flattened
+            methods[mname] = dataclasses.replace(f, node=node)
+    return _ClsView(cls, methods)
+
+
 def _inline_field_aliases(cls):
     """Locals bound once to `self.X`, X an attribute that no method but __init__ stores: every load of the local is a load of the attribute."""
     import copy
@@ -784,6 +843,7 @@ def check(index, ctx):
     outer = index.find_class("torchjd.aggregation.nash_mtl.NashMTL")
     if cls is None or outer is None:
         raise AnalysisError("anchor vanished: NashMTL / _NashMTLWeighting")
+    cls = _flatten_attribute_objects(index, cls)  # `self.calls = _CallCounter()` with the counter's methods called from forward / reset: read as the code they stand for
     cls = flatten_state_object(index, cls)  # mutable fields kept in a helper object that __init__ and reset() both re-create are read as fields of the weighting
     cls = _inline_field_aliases(cls)  # `max_norm = self.max_norm` (a field only the constructor writes) read in place
     need = {}
